@@ -326,6 +326,12 @@ class Ctx:
             tmp = os.path.join(VERIF, "evidence", ".%s.tmp" % self.prop)
             json.dump(ev, open(tmp, "w"), indent=1, default=str)
             os.replace(tmp, os.path.join(VERIF, "evidence", self.prop + ".json"))
+            # the schema allows one tier per property in evidence/: keep the last run of each tier next to it
+            try:
+                os.makedirs(os.path.join(VERIF, "evidence_by_tier"), exist_ok=True)
+                json.dump(ev, open(os.path.join(VERIF, "evidence_by_tier", "%s.%s.json" % (self.prop, self.tier)), "w"), indent=1, default=str)
+            except OSError:
+                pass
         for k, w in self.known_hits:
             print("KNOWN-FINDING: property=%s %s (%s)" % (self.prop, k, w), flush=True)
         for k, w, rp in self.violations:
